@@ -242,10 +242,23 @@ pub fn gen_client(r: &mut Rng, pool4: &[u32], pool6: &[u128]) -> Client {
         }
         _ => {
             let a = *r.pick(pool6);
-            Client::V6(match r.below(3) {
+            Client::V6(match r.below(4) {
                 0 => a,
                 1 => a ^ (1u128 << r.below(128)),
-                _ => a.wrapping_add(r.below(70_000) as u128),
+                2 => a.wrapping_add(r.below(70_000) as u128),
+                _ => {
+                    // a native IPv6 address that merely ENDS like a mapped one (…:ffff:a.b.c.d with other bits set above):
+                    // it is not an IPv4 client and no IPv4 prefix contains it
+                    let base4 = *r.pick(pool4);
+                    let a4 = jitter4(r, base4) as u128;
+                    let upper = match r.below(3) {
+                        0 => a & !0xffff_ffff_ffffu128,
+                        1 => 1u128 << (48 + r.below(80)),
+                        _ => 0x2001_0db8u128 << 96,
+                    };
+                    let upper = if upper == 0 { 1u128 << 100 } else { upper };
+                    upper | 0xffff_0000_0000u128 | a4
+                }
             })
         }
     }
